@@ -433,6 +433,10 @@ func (t *translator) typeOf(p *pkgInfo, f *ast.File, e ast.Expr) string {
 		return "map[" + t.typeOf(p, f, x.Key) + "]" + t.typeOf(p, f, x.Value)
 	case *ast.ChanType:
 		return "chan " + t.typeOf(p, f, x.Value) // opaque: needs a configured Lean type
+	case *ast.InterfaceType:
+		if x.Methods == nil || len(x.Methods.List) == 0 {
+			return "interface{}" // a value that is only passed on: needs a configured Lean type (Unit)
+		}
 	case *ast.StructType:
 		if x.Fields == nil || len(x.Fields.List) == 0 {
 			return "struct{}"
@@ -475,7 +479,7 @@ func mapParts(tp string) (string, string, bool) {
 // under resolves named types of the repo to their underlying type
 func (t *translator) under(tp string) string {
 	for i := 0; i < 10; i++ {
-		if basic[tp] || strings.HasPrefix(tp, "chan ") || strings.HasPrefix(tp, "[]") || strings.HasPrefix(tp, "*") || strings.HasPrefix(tp, "map[") || tp == "struct{}" || tp == "" || tp == "untyped-int" {
+		if basic[tp] || tp == "interface{}" || strings.HasPrefix(tp, "chan ") || strings.HasPrefix(tp, "[]") || strings.HasPrefix(tp, "*") || strings.HasPrefix(tp, "map[") || tp == "struct{}" || tp == "" || tp == "untyped-int" {
 			return tp
 		}
 		k := strings.LastIndex(tp, ".")
@@ -3049,7 +3053,7 @@ func (ft *ftrans) assign(s *ast.AssignStmt, e env, k cont) node {
 	} else if tp == "untyped-int" {
 		tp = "int"
 	}
-	if tp == "" || tp == "nil" || tp == "errflag" {
+	if tp == "" || tp == "nil" || (tp == "errflag" && !strings.HasPrefix(v.s, "t''")) {
 		failf("the type of %s cannot be inferred", o.Name)
 	}
 	return ft.wrap(pre, nLet{name: name, typ: ft.t.leanType(tp), val: v.s, body: k(e.with(o, binding{kind: bVar, lean: name, typ: tp, nn: v.nn}))})
